@@ -272,7 +272,9 @@ func appendTokensForValue(val cty.Value, toks Tokens) Tokens {
 		i := 0
 		for it := val.ElementIterator(); it.Next(); {
 			eKey, eVal := it.Element()
-			if hclsyntax.ValidIdentifier(eKey.AsString()) {
+			// The keyword "for" must be quoted, because an object constructor
+			// whose first token is "for" would be parsed as a for expression.
+			if k := eKey.AsString(); hclsyntax.ValidIdentifier(k) && k != "for" {
 				toks = append(toks, &Token{
 					Type:  hclsyntax.TokenIdent,
 					Bytes: []byte(eKey.AsString()),
